@@ -147,7 +147,7 @@ def run(ctx):
         # other DEFAULT schedules (a different base point of the deviation-bounded tree): quick = the default execution only,
         # thorough = plus every single deviation from it
         for pol in (POLICIES_QUICK if ctx.quick else POLICIES_THOROUGH):
-            items.append((dict(j, policy=pol), 0 if ctx.quick else 1))
+            items.append((dict(j, policy=pol), 0 if (ctx.quick or not small) else 1))  # thorough: single deviations on the 2-variable instances
     ctx.rule = (
         "stateless deviation-bounded exploration of the thread schedule of the REAL orchestrated solve (run_local_thread_dcop, "
         "deploy_computations, run(timeout=10 virtual s), DPOP, thread-mode agents) under a cooperative scheduler with virtual time: per "
